@@ -7,6 +7,15 @@
  * timeout <sec>, and 1..4 REAL client contexts each with one UDP session to the server's endpoint.  Virtual clock and
  * scripted network from sim_core.h: no datagram ever crosses a socket.
  *
+ * BLOCK-WISE lines (not replayed through the Lean model, judged by props/c11_oracle.py only): <m> = b | B, written
+ * b<start> or b<start>/<szx> (szx 0..6), is a resource with default notify flags (B: NOTIFY_CON) whose GET handler answers
+ * through coap_add_data_large_response() with a body of 2.5 blocks (2*S + S/2 bytes, S = 16 << szx; without /<szx>:
+ * S = 1024 and the client never sends a Block2 option, the server picks the size), every byte = (number of chg events on
+ * the resource so far) mod 251.  A line with at least one such resource runs the server context with
+ * COAP_BLOCK_USE_LIBCOAP (other lines do not: their output is byte-identical to what it was before this kind existed); the
+ * clients stay in per-block mode (they never fetch a block on their own).  With /<szx> every reg/can/get to that resource
+ * carries Block2 = 0/0/<szx>.
+ *
  * Events (fields separated by ':'):
  *   reg:c:r:t:q:k:mid   client c sends GET /r<r> Observe=0, token index t, query variant q (0 none,1 "a=1",2 "b=2"),
  *                       type k (C|N), message id mid; the datagram reaches the server at once, the response reaches
@@ -24,6 +33,9 @@
  *   err:r:b             from now on the GET handler of r<r> answers 4.04 (b=1) / 2.05 (b=0)
  *   lost:c              the server's session for client c is lost (coap_session_disconnected, NOT_DELIVERABLE)
  *   del:r               the application deletes r<r> (coap_delete_resource)
+ *   blk:c:r:t:q:k:mid:num   (block-wise lines only, r must be a b|B resource) client c fetches block <num> of the body in
+ *                       progress: GET /r<r>, same query variant, token index t, Block2 = num/0/<szx of the resource>, NO
+ *                       Observe option (RFC 7959 3.4, RFC 7641 3.6).  "The client does not fetch" = no event.
  *
  * Output: for every event `<datagrams the server sent> ; <state>` joined by ` | `:
  *   p<c>:<tok>:<code>:<obs|->:<K>:<mid>        response to a request (K = A|N|C)
@@ -32,6 +44,9 @@
  *   state: t=<now> P<observe_pending> R<r>=<observe>/<dirty><partiallydirty>[c.tok.non.fail.dirty.mid,…] (list order)
  *          or R<r>=x (deleted);  S<c>=<ref>/<con_active>/<tx_mid> or S<c>=- ;  Q[c.mid.due.cnt,…] (send queue order)
  * After the last event: ` || C<c>:` the client handler log (tok:code:obs:K per handler call).
+ * Block-wise lines only: every p/n datagram has two more fields  :<num>/<m>/<szx>|-  (its Block2 option) and
+ *   :<payload length>/<v>  (v = the payload's byte value if all its bytes are equal, i.e. the body's version, else -),
+ *   and the state has  L<c>=<number of lg_xmit of the session>.<last_obs>.<last_all_sent> of the head one, or L<c>=-
  */
 #include "sim_core.h"
 
@@ -43,6 +58,9 @@ static coap_context_t *srv;
 static coap_endpoint_t *ep;
 static coap_resource_t *res[MAXR];
 static int res_err[MAXR];
+static int res_blk[MAXR], res_szx[MAXR];   /* block-wise resource; szx the clients ask for (-1: no Block2 in requests) */
+static unsigned res_ver[MAXR];             /* application state version = number of chg events */
+static int blockwise;                      /* the line has a block-wise resource */
 static int nres, ncli;
 static coap_context_t *cctx[MAXC];
 static coap_session_t *csess[MAXC];
@@ -78,6 +96,22 @@ static int get_observe(const uint8_t *b, size_t len, size_t tkl, long *val) {
     i += ll;
   }
   return 0;
+}
+
+static int get_opt_uint(const uint8_t *b, size_t len, size_t tkl, unsigned want, unsigned long *val, size_t *pl_off) {
+  /* walk the options of a raw datagram: 1 and the value of option `want` if present; *pl_off = offset of the payload or len */
+  size_t i = 4 + tkl; unsigned num = 0; int found = 0;
+  *pl_off = len;
+  while (i < len) {
+    if (b[i] == 0xFF) { *pl_off = i + 1; break; }
+    unsigned dl = b[i] >> 4, ll = b[i] & 15; i++;
+    if (dl == 13) { dl = b[i] + 13u; i++; } else if (dl == 14) { dl = ((unsigned)b[i] << 8 | b[i + 1]) + 269u; i += 2; }
+    if (ll == 13) { ll = b[i] + 13u; i++; } else if (ll == 14) { ll = ((unsigned)b[i] << 8 | b[i + 1]) + 269u; i += 2; }
+    num += dl;
+    if (num == want && !found) { unsigned long v = 0; for (unsigned k = 0; k < ll && i + k < len; k++) v = (v << 8) | b[i + k]; *val = v; found = 1; }
+    i += ll;
+  }
+  return found;
 }
 
 static coap_response_t cli_on_response(coap_session_t *session, const coap_pdu_t *sent, const coap_pdu_t *rcvd,
@@ -121,6 +155,18 @@ static int nclientdev;
 
 static void sep(void) { if (!first_out) out(" "); first_out = 0; }
 
+/* block-wise lines: Block2 option and payload summary of a server datagram */
+static void out_blk(const sim_dgram_t *d) {
+  unsigned long bv = 0; size_t po = 0, pl;
+  int same = 1;
+  if (!blockwise) return;
+  if (get_opt_uint(d->data, d->len, d->tkl, COAP_OPTION_BLOCK2, &bv, &po)) out(":%lu/%lu/%lu", bv >> 4, (bv >> 3) & 1, bv & 7);
+  else out(":-");
+  pl = d->len - po;
+  for (size_t i = po + 1; i < d->len; i++) if (d->data[i] != d->data[po]) same = 0;
+  if (pl && same) out(":%zu/%u", pl, (unsigned)d->data[po]); else out(":%zu/-", pl);
+}
+
 static void on_tx(const sim_dgram_t *d) {
   if (d->session && d->session->context == srv) {
     int c = cli_of_srv_session(d->session);
@@ -141,6 +187,7 @@ static void on_tx(const sim_dgram_t *d) {
       sep();
       if (ho) out("p%d:%s:%d:%ld:%c:%d", c, tk, d->code, ov, sim_kind[d->type], d->mid);
       else out("p%d:%s:%d:-:%c:%d", c, tk, d->code, sim_kind[d->type], d->mid);
+      out_blk(d);
       if (n_to_client_now < 16) to_client_now[n_to_client_now++] = d;
       return;
     }
@@ -150,6 +197,7 @@ static void on_tx(const sim_dgram_t *d) {
       sep();
       if (ho) out("n%d.%d:%s:%d:%ld:%c:%d", c, n, tk, d->code, ov, sim_kind[d->type], d->mid);
       else out("n%d.%d:%s:%d:-:%c:%d", c, n, tk, d->code, sim_kind[d->type], d->mid);
+      out_blk(d);
     }
   } else {
     cli_reply = d;
@@ -157,13 +205,22 @@ static void on_tx(const sim_dgram_t *d) {
 }
 
 /* ---- server resource handler */
+static void rel_body(coap_session_t *s, void *p) { (void)s; free(p); }
 static void hnd_get(coap_resource_t *r, coap_session_t *s, const coap_pdu_t *req, const coap_string_t *q, coap_pdu_t *rsp) {
   int k = -1;
   uint8_t pl[4];
-  (void)s; (void)req;
   for (int i = 0; i < nres; i++) if (res[i] == r) k = i;
   if (k >= 0 && res_err[k]) { coap_pdu_set_code(rsp, COAP_RESPONSE_CODE_NOT_FOUND); return; }
   coap_pdu_set_code(rsp, COAP_RESPONSE_CODE_CONTENT);
+  if (k >= 0 && res_blk[k]) {
+    /* a body of 2.5 blocks, every byte = the state's version: libcoap cuts it into blocks (lg_xmit) */
+    size_t chunk = (size_t)16 << (res_szx[k] < 0 ? 6 : res_szx[k]), len = 2 * chunk + chunk / 2;
+    uint8_t *body = (uint8_t *)malloc(len);
+    if (!body) { coap_pdu_set_code(rsp, COAP_RESPONSE_CODE_INTERNAL_ERROR); return; }
+    memset(body, (int)(res_ver[k] % 251u), len);
+    coap_add_data_large_response(r, s, req, rsp, q, COAP_MEDIATYPE_APPLICATION_OCTET_STREAM, -1, 0, len, body, rel_body, body);
+    return;
+  }
   pl[0] = 'r'; pl[1] = (uint8_t)('0' + k); pl[2] = q ? (uint8_t)('0' + (q->length & 7)) : '-';
   coap_add_data(rsp, 3, pl);
 }
@@ -188,6 +245,14 @@ static void dump_state(void) {
     coap_session_t *s = srv_session_of(c);
     if (s) out(" S%d=%u/%u/%u", c, s->ref, s->con_active, (unsigned)s->tx_mid); else out(" S%d=-", c);
   }
+  if (blockwise)
+    for (int c = 0; c < ncli; c++) {
+      coap_session_t *s = srv_session_of(c);
+      unsigned n = 0;
+      if (s) for (coap_lg_xmit_t *l = s->lg_xmit; l; l = l->next) n++;
+      if (n) out(" L%d=%u.%llu.%llu", c, n, (unsigned long long)s->lg_xmit->last_obs, (unsigned long long)s->lg_xmit->last_all_sent);
+      else out(" L%d=-", c);
+    }
   out(" Q[");
   {
     coap_tick_t dl; coap_queue_t *q; unsigned i = 0;
@@ -199,7 +264,7 @@ static void dump_state(void) {
   out("]");
 }
 
-static int send_request(int c, int r, int t, int q, int k, int mid, int observe) {
+static int send_request(int c, int r, int t, int q, int k, int mid, int observe, int blknum) {
   uint8_t tok[2]; char path[4]; uint8_t buf[4];
   coap_pdu_t *p;
   tok[0] = (uint8_t)(0xA0 + c); tok[1] = (uint8_t)t;
@@ -210,6 +275,11 @@ static int send_request(int c, int r, int t, int q, int k, int mid, int observe)
   coap_add_option(p, COAP_OPTION_URI_PATH, 2, (const uint8_t *)path);
   if (q == 1) coap_add_option(p, COAP_OPTION_URI_QUERY, 3, (const uint8_t *)"a=1");
   else if (q == 2) coap_add_option(p, COAP_OPTION_URI_QUERY, 3, (const uint8_t *)"b=2");
+  if (res_blk[r] && (blknum >= 0 || res_szx[r] >= 0)) {
+    /* requests to a block-wise resource negotiate the size; blk:… asks for block <blknum> of the body in progress */
+    unsigned v = ((unsigned)(blknum < 0 ? 0 : blknum) << 4) | (unsigned)(res_szx[r] < 0 ? 6 : res_szx[r]);
+    coap_add_option(p, COAP_OPTION_BLOCK2, coap_encode_var_safe(buf, sizeof(buf), v), buf);
+  }
   cli_reply = NULL;
   coap_send(csess[c], p);
   if (!cli_reply) return 0;
@@ -225,22 +295,30 @@ static int send_request(int c, int r, int t, int q, int k, int mid, int observe)
 }
 
 static int geti(char **f, int nf, int i) { return i < nf ? atoi(f[i]) : -1; }
+static int alldigits(const char *s) { if (!*s || strlen(s) > 6) return 0; for (; *s; s++) if (*s < '0' || *s > '9') return 0; return 1; }
 
 static int do_event(char *ev) {
-  char *f[8]; int nf = 0;
-  for (char *p = ev; nf < 8;) { f[nf++] = p; p = strchr(p, ':'); if (!p) break; *p++ = 0; }
+  char *f[10]; int nf = 0;
+  for (char *p = ev; nf < 10;) { f[nf++] = p; p = strchr(p, ':'); if (!p) break; *p++ = 0; }
   const char *op = f[0];
   if (!strcmp(op, "reg") || !strcmp(op, "can") || !strcmp(op, "get")) {
     int c = geti(f, nf, 1), r = geti(f, nf, 2), t = geti(f, nf, 3), q = geti(f, nf, 4), mid = geti(f, nf, 6);
     if (nf != 7 || c < 0 || c >= ncli || r < 0 || r >= nres || t < 0 || t > 255 || q < 0 || q > 2 || mid < 0 || mid > 65535 ||
         (f[5][0] != 'C' && f[5][0] != 'N')) return 0;
-    send_request(c, r, t, q, f[5][0], mid, op[0] == 'r' ? 0 : op[0] == 'c' ? 1 : -1);
+    send_request(c, r, t, q, f[5][0], mid, op[0] == 'r' ? 0 : op[0] == 'c' ? 1 : -1, -1);
+    return 1;
+  }
+  if (!strcmp(op, "blk")) {
+    int c = geti(f, nf, 1), r = geti(f, nf, 2), t = geti(f, nf, 3), q = geti(f, nf, 4), mid = geti(f, nf, 6), num = geti(f, nf, 7);
+    if (nf != 8 || c < 0 || c >= ncli || r < 0 || r >= nres || !res_blk[r] || t < 0 || t > 255 || q < 0 || q > 2 || mid < 0 ||
+        mid > 65535 || (f[5][0] != 'C' && f[5][0] != 'N') || !alldigits(f[7]) || num < 0 || num > 255) return 0;
+    send_request(c, r, t, q, f[5][0], mid, -1, num);
     return 1;
   }
   if (!strcmp(op, "chg")) {
     int r = geti(f, nf, 1);
     if (nf != 2 || r < 0 || r >= nres) return 0;
-    if (res[r]) coap_resource_notify_observers(res[r], NULL);
+    if (res[r]) { res_ver[r]++; coap_resource_notify_observers(res[r], NULL); }
     return 1;
   }
   if (!strcmp(op, "io")) { if (nf != 1) return 0; coap_io_prepare_epoll(srv, sim_now); return 1; }
@@ -312,6 +390,8 @@ static void step(char *line) {
   sim_log_enabled = 0;
   sim_prng_fill = 0;
   memset(nnotes, 0, sizeof(nnotes)); memset(clen, 0, sizeof(clen)); memset(res_err, 0, sizeof(res_err));
+  memset(res_blk, 0, sizeof(res_blk)); memset(res_ver, 0, sizeof(res_ver)); blockwise = 0;
+  for (int i = 0; i < MAXR; i++) res_szx[i] = -1;
   for (int i = 0; i < MAXC; i++) clog_[i][0] = 0;
   in_request = 0; cli_verdict = COAP_RESPONSE_OK; nclientdev = 0;
   srv = sim_new_context();
@@ -323,7 +403,15 @@ static void step(char *line) {
     unsigned long start = strtoul(rs, &rs, 10);
     char path[4];
     if (m == 'c') flags = COAP_RESOURCE_FLAGS_NOTIFY_CON; else if (m == 'n') flags = COAP_RESOURCE_FLAGS_NOTIFY_NON;
-    else if (m == 'a') flags = COAP_RESOURCE_FLAGS_NOTIFY_NON_ALWAYS; else if (m != 'd') { nres = -1; break; }
+    else if (m == 'a') flags = COAP_RESOURCE_FLAGS_NOTIFY_NON_ALWAYS;
+    else if (m == 'b' || m == 'B') {
+      res_blk[nres] = 1; blockwise = 1;
+      if (m == 'B') flags = COAP_RESOURCE_FLAGS_NOTIFY_CON;
+      if (*rs == '/') {
+        if (rs[1] < '0' || rs[1] > '6' || (rs[2] && rs[2] != ',')) { nres = -1; break; }
+        res_szx[nres] = rs[1] - '0'; rs += 2;
+      }
+    } else if (m != 'd') { nres = -1; break; }
     snprintf(path, sizeof(path), "r%d", nres);
     res[nres] = coap_resource_init(coap_make_str_const(path), flags);   /* the path is copied (no RELEASE_URI flag) */
     coap_register_request_handler(res[nres], COAP_REQUEST_GET, hnd_get);
@@ -334,6 +422,7 @@ static void step(char *line) {
     if (*rs == ',') rs++;
   }
   if (nres < 1 || *rs) { sim_free_all(0); printf("bad-op"); return; }
+  if (blockwise) coap_context_set_block_mode(srv, COAP_BLOCK_USE_LIBCOAP);   /* only then: other lines stay byte-identical */
   for (int c = 0; c < ncli; c++) {
     cctx[c] = sim_new_context();
     coap_register_response_handler(cctx[c], cli_on_response);
